@@ -821,5 +821,5 @@ pub fn run(ctx: &Ctx) {
         run_case(&c, false).map(|_| ())
     });
     let max_ops = ctx.sz(250, 1200) as usize;
-    ctx.prop("histories", ctx.n(60_000, 1_500_000), || case_strategy(max_ops), |c: &Case| run_case(c, reject_open));
+    ctx.prop("histories", ctx.n(60_000, 4_000_000), || case_strategy(max_ops), |c: &Case| run_case(c, reject_open));
 }
